@@ -128,6 +128,10 @@ Definition model_agrees (c : case) : bool :=
   let xst := xrun (c_hist c) in
   all2b out_eqb (st_outs st) (c_fins c)
   && all2b xout_eqb (xs_outs xst) (c_fins c)
+  (* ... and, the history being linear, the replay of the SYNTACTIC derivation path of every finisher *)
+  && (let xh := map to_xstep (c_hist c) in
+      negb (linearb tbl0 xh)
+      || all2b (fun path o => xobs_eqb (xreplay path) (f_ax o)) (fin_paths tbl0 xh) (c_fins c))
   && same_handles st xst
   && list_eqb hobs_eqb (model_final st xst) (c_final c).
 
